@@ -142,8 +142,18 @@ ARR_FRESH_METHODS = {"copy", "flatten", "astype", "tolist", "item", "tobytes", "
 ARR_MUTATE_METHODS = {"sort", "fill", "resize", "put", "itemset", "partition", "setfield",
                       "byteswap", "__setitem__", "__iadd__", "__isub__", "__imul__",
                       "__itruediv__", "__ifloordiv__", "__ipow__", "__iand__", "__ior__",
-                      "__ixor__", "__setmask__", "shrink_mask", "unshare_mask"}
+                      "__ixor__", "__setmask__", "shrink_mask"}
 ARR_META_METHODS = {"harden_mask", "soften_mask", "set_fill_value", "setflags"}   # metadata only
+# MaskedArray.unshare_mask(): replaces the mask of THIS array object by a private copy (if numpy's
+# _sharedmask flag is set, which it is for every new MaskedArray object that views another one);
+# no caller visible content changes.  Modelled in frames_calls.ev_Call (mask-sharing component).
+ARR_UNSHARE_METHODS = {"unshare_mask"}
+# numpy functions / methods that always return a NEW array object when they return a view
+# (so that numpy sets _sharedmask on a masked result); all other view-returning functions
+# (asanyarray, atleast_nd, ma.asanyarray, ...) may hand back the very same object
+NP_NEWOBJ_VIEW = {"ma.array", "ma.masked_array", "ma.MaskedArray", "ma.asarray", "reshape", "ravel",
+                  "transpose", "swapaxes", "squeeze"}
+ARR_NEWOBJ_VIEW_METHODS = {"reshape", "ravel", "squeeze", "transpose", "swapaxes", "view"}
 # attributes of arrays
 ARR_VIEW_ATTRS = {"T", "real", "imag", "flat", "mask", "data", "base", "mT", "recordmask", "_mask",
                   "_data"}
